@@ -153,7 +153,7 @@ impl<'t, 'i> BlockParser<'t, 'i> {
                 }
                 T![escaped] => {
                     t.append_str(&self.input[start..end], start);
-                    debug_assert_eq!(token.len(), 2, "unexpected escaped token length");
+                    // the escaped char can be any width, or missing at the end of the input
                     start = token.span.start() + 1; // skip "\"
                     end = token.span.end()
                 }
